@@ -70,32 +70,33 @@ type violation struct {
 }
 
 type propStats struct {
-	Name        string           `json:"name"`
-	Requested   int              `json:"requested"`
-	Evaluations int              `json:"evaluations"`
-	Nontrivial  int              `json:"nontrivial_evaluations"`
-	Classes     map[string]int   `json:"classes"`
-	Excluded    map[string]int   `json:"excluded_known"`
-	Hashes      []string         `json:"nt_hashes"`
+	Name        string            `json:"name"`
+	Requested   int               `json:"requested"`
+	Evaluations int               `json:"evaluations"`
+	Nontrivial  int               `json:"nontrivial_evaluations"`
+	Classes     map[string]int    `json:"classes"`
+	Excluded    map[string]int    `json:"excluded_known"`
+	Hashes      []string          `json:"nt_hashes"`
 	Samples     []json.RawMessage `json:"samples"`
-	Exhaustive  bool             `json:"exhaustive"`
-	Starved     []string         `json:"starved,omitempty"`
-	WallS       float64          `json:"wall_s"`
-	Extra       map[string]int   `json:"extra,omitempty"`
+	Exhaustive  bool              `json:"exhaustive"`
+	Starved     []string          `json:"starved,omitempty"`
+	WallS       float64           `json:"wall_s"`
+	Extra       map[string]int    `json:"extra,omitempty"`
 	ExcludedEx  map[string]string `json:"excluded_examples,omitempty"`
 }
 
 type statsFile struct {
-	Property   string       `json:"property"`
-	Tier       string       `json:"tier"`
-	Seed       uint64       `json:"seed"`
-	Shard      int          `json:"shard"`
-	NShards    int          `json:"nshards"`
-	Props      []*propStats `json:"props"`
-	Violations []violation  `json:"violations"`
+	Property   string            `json:"property"`
+	Tier       string            `json:"tier"`
+	Seed       uint64            `json:"seed"`
+	Shard      int               `json:"shard"`
+	NShards    int               `json:"nshards"`
+	Props      []*propStats      `json:"props"`
+	Violations []violation       `json:"violations"`
 	KnownHit   map[string]string `json:"known_hit"`
-	Replayed   bool         `json:"replayed"`
-	Notes      []string     `json:"notes,omitempty"`
+	Replayed   bool              `json:"replayed"`
+	Counters   map[string]int    `json:"counters,omitempty"`
+	Notes      []string          `json:"notes,omitempty"`
 }
 
 var (
@@ -594,6 +595,26 @@ func RunEnum[C any](t *testing.T, p Enum[C]) {
 	mu.Lock()
 	stats.Props = append(stats.Props, ps)
 	mu.Unlock()
+}
+
+// Count adds n to a named run-wide counter (reported in the evidence).
+func Count(key string, n int) {
+	mu.Lock()
+	if stats.Counters == nil {
+		stats.Counters = map[string]int{}
+	}
+	stats.Counters[key] += n
+	mu.Unlock()
+}
+
+// WriteReplay stores a failing case of sub-property prop as a replay file and
+// returns its path (used by checks that do not run under Run/RunEnum, e.g.
+// native fuzz targets).
+func WriteReplay(prop string, c interface{}, f *Failure) string {
+	if propID == "" {
+		propID = os.Getenv("VERIF_PROP")
+	}
+	return writeReplay(prop, caseJSON(c), f)
 }
 
 // Note attaches a free-text note to the stats (shown in the evidence).
